@@ -1,7 +1,7 @@
 # C09 - no event history or failing task takes the driver down.
 # Engine W-loop: real backend()/comm.c/error handling under the simulated kernel, clock and timer.
 import re
-from ..core import Plan, Violation, generic_crash_violations, enc, dec
+from ..core import Plan, Violation, generic_crash_violations, spin_violations, enc, dec
 from ..world import *
 
 PROP = 'C09'
@@ -286,6 +286,9 @@ def check(plan, res):
     if v:
         return v
     evs = res.events
+    # the driver keeps running: a connection that the (level-triggered) poll reports readable cycle after cycle without the
+    # driver reading it is a busy loop at 100 % CPU in deployment, and that client is never served again
+    v += spin_violations(PROP, res, _error_cycles(res))
     text_hdr = '\n'.join(plan.header)
     eh_absent = 'NO_ERROR_HANDLER' in dec(next((h.split(' ')[2] for h in plan.header if h.startswith('file mcfg.h')), '%')).decode('latin-1')
     # ---- every executed bomb and every injected fault is reported
